@@ -135,8 +135,16 @@ func (s Sample) Mean() float64 {
 		//   m_i = (1 - w_i/wsum_i) * m_(i-1) + (w_i/wsum_i) * x_i
 		//       = m_(i-1) + (x_i - m_(i-1)) * (w_i/wsum_i)
 		w := s.Weights[i]
+		if w == 0 {
+			// A zero-weight value carries no mass; while
+			// wsum is still 0 it would compute 0/0.
+			continue
+		}
 		wsum += w
 		m += (x - m) * w / wsum
+	}
+	if wsum == 0 {
+		return math.NaN()
 	}
 	return m
 }
@@ -202,9 +210,15 @@ func (s Sample) GeoMean() float64 {
 	m, wsum := 0.0, 0.0
 	for i, x := range s.Xs {
 		w := s.Weights[i]
+		if w == 0 {
+			continue
+		}
 		wsum += w
 		lx := math.Log(x)
 		m += (lx - m) * w / wsum
+	}
+	if wsum == 0 {
+		return math.NaN()
 	}
 	return math.Exp(m)
 }
